@@ -615,6 +615,9 @@ fn family_c01(ctx: &mut Ctx) {
             dec_event(ctx, e, kd, k, r, &orig, &rec, &pat, &[0, k - 1, k, 65535]);
         }
     }
+    // nearly everything received: single losses around bitmap word boundaries
+    let n = if ctx.thorough { 200 } else { 40 };
+    long_run_rounds(ctx, &mut rng, &engines, n, true);
     // envelope boundary at maximum loss
     for (rate, k, r) in boundary_configs(ctx.thorough) {
         let dr = ops::default_rate_of(k, r).unwrap_or("none");
@@ -750,6 +753,55 @@ fn family_c08(ctx: &mut Ctx) {
     }
 }
 
+/// Decode rounds where nearly everything is received: long runs of received originals with single losses placed at
+/// and around multiples of 32 and 64 (bitmap word boundaries), small recovery counts (powers of two and not).
+fn long_run_rounds(ctx: &mut Ctx, rng: &mut impl Rng, engines: &[&'static str], n: usize, oneshot_too: bool) {
+    for t in 0..n {
+        let r = *[1usize, 2, 3, 4, 5, 8, 16, 17].choose(rng).unwrap();
+        let k = *[33usize, 64, 65, 100, 129, 200, 513, 1000, 3000].choose(rng).unwrap();
+        let rate = if crate::dut::supports_rate("high", k, r) && t % 4 != 3 { "high" } else { "low" };
+        if !crate::dut::supports_rate(rate, k, r) {
+            continue;
+        }
+        let dr = ops::default_rate_of(k, r).unwrap_or("none");
+        let sb = *[2usize, 6, 66].choose(rng).unwrap();
+        let orig = originals(ctx.seed, ctx.counter, k, sb);
+        let rec = crate::dut::ref_encode(rate, k, r, &orig);
+        // losses: up to r originals at word-boundary-ish positions
+        let base = 32 * rng.gen_range(1..=(k / 32).max(1));
+        let cands: Vec<usize> = [base - 1, base, base + 1, base.saturating_sub(r), base + r, 31, 32, 63, 64, k - 1, 0]
+            .into_iter()
+            .filter(|i| *i < k)
+            .collect();
+        let mut lost: BTreeSet<usize> = BTreeSet::new();
+        let want = rng.gen_range(1..=r.min(4));
+        while lost.len() < want {
+            lost.insert(*cands.choose(rng).unwrap());
+        }
+        let mut arrival: Vec<(bool, usize)> = (0..k).filter(|i| !lost.contains(i)).map(|i| (false, i)).collect();
+        let mut js: Vec<usize> = (0..r).collect();
+        js.shuffle(rng);
+        let extra = if rng.gen_bool(0.5) { r } else { lost.len() };
+        arrival.extend(js.into_iter().take(extra.max(lost.len())).map(|j| (true, j)));
+        if t % 3 == 0 {
+            arrival.shuffle(rng);
+        }
+        let e = if oneshot_too && t % 2 == 0 { "default" } else { engines[t % engines.len()] };
+        let kinds = ops::kinds_for(rate, dr, e);
+        // prefer the one-shot function and the wrapper when available
+        let kd = if oneshot_too && kinds.len() > 2 { kinds[2 + t % (kinds.len() - 2)] } else { kinds[t % kinds.len()] };
+        let probes: Vec<usize> = lost.iter().copied().chain([0, k - 1, k, base]).collect();
+        dec_event(ctx, e, kd, k, r, &orig, &rec, &arrival, &probes);
+    }
+}
+
+fn family_c10(ctx: &mut Ctx) {
+    let engines = ctx.engines.clone();
+    let mut rng = util::rng(ctx.seed, 10);
+    let n = if ctx.thorough { 400 } else { 60 };
+    long_run_rounds(ctx, &mut rng, &engines, n, true);
+}
+
 /// C11 at scale: the same shard set in several arrival orders, and supersets of it.
 fn family_c11(ctx: &mut Ctx) {
     let engines = ctx.engines.clone();
@@ -838,6 +890,8 @@ fn family_c12(ctx: &mut Ctx) {
         let kd = *ops::kinds_for(rate, dr, e).choose(&mut rng).unwrap();
         dec_event(ctx, e, kd, k, r, &orig, &rec, &arrival, &probes);
     }
+    let n = if ctx.thorough { 200 } else { 40 };
+    long_run_rounds(ctx, &mut rng, &engines, n, true);
 }
 
 // ======================================================================
@@ -1033,6 +1087,7 @@ pub fn main(args: &Args) -> i32 {
         "c03" => family_c03(&mut ctx),
         "c08" => family_c08(&mut ctx),
         "c09" => family_c09(&mut ctx),
+        "c10" => family_c10(&mut ctx),
         "c11" => family_c11(&mut ctx),
         "c12" => family_c12(&mut ctx),
         "c13" => family_c13(&mut ctx),
